@@ -196,7 +196,7 @@ class CallMixin:
                 return r
         if len(ex.frames) > MAX_DEPTH:
             raise Undecided(f'inlining depth exceeded at {fi.qualname}')
-        if fi.kind in ('contextmanager',):
+        if fi.kind in ('contextmanager', 'method_contextmanager'):
             return VCtxMgr(vf, args, kwargs)
         fr = Frame(fi, parent=vf.frame)
         fr.owner = owner if owner is not None else fi.cls
